@@ -179,7 +179,8 @@ def oracle(times, types, batches, outs, other_task, passthrough):
             last_type = st
             if st == e["N"]:
                 seen_normal_value = True
-            cands = [t] if in_order else sorted({t, max(t, prev_batches_max)})
+            # elapsed time = the latest sample time seen so far: a late sample (older than an earlier batch) never shrinks it
+            cands = [max(t, prev_batches_max)]
             verdict = None
             for d in cands:
                 nn = val * d
